@@ -119,7 +119,10 @@ def transform_tree(repo, native=False):
         a = r['anchor']
         if s.count(a) != 1:
             raise AnchorMissing('route anchor %r found %d times in %s' % (a, s.count(a), rel))
-        texts[rel] = s.replace(a, a + '\n' + r['insert'] + '\n')
+        pre = r.get('prefix', a)
+        if not a.startswith(pre):
+            raise AnchorMissing('route prefix is not a prefix of its anchor in %s' % rel)
+        texts[rel] = s.replace(a, pre + '\n' + r['insert'] + a[len(pre):])
     for rel, t in texts.items():
         p = os.path.join(repo, rel)
         if not os.path.exists(p) or open(p).read() != t:
